@@ -149,17 +149,19 @@ example :
     s.final = true ∧ (renderFlat o {} s).final = true := by
   decide
 
-/-- **Activity.** After any history of graph operations on a model's graph (created for the model
-state `init`), in the full diagram of any machine: a top-level state styled `active` is one of the
-model's current states; a top-level state styled `previous` is the (global) source of the last
-executed transition and not current; every top-level current state is styled `active`; the last
-source, when top-level and not current, is styled `previous`. -/
+/-- **Activity.** A history is any sequence of graph events in the order they happen: `begin` (reset +
+previous, at the start of a state change), `finish cur` (active, when the engine's state change has
+returned), `regen cur`; events fired from callbacks nest (`begin A; begin B; finish C; finish C`).
+After ANY such sequence, in the full diagram of any machine: a top-level state styled `active` was
+marked active since the last reset; a top-level state styled `previous` is the (global) source of the
+last `begin` — the last executed transition — and was not marked since; every marked top-level state
+is styled `active`; the last source, when top-level and not marked, is styled `previous`. -/
 theorem C16_activity (o : Opts) (m : Mach) (init : List Path) (h : List Step) :
     let d := diagram o m (stylesAfter init h) none
-    (∀ p ∈ styledTop d 1, p ∈ curOf init h) ∧
-    (∀ p ∈ styledTop d 2, lastSource h = some p ∧ p ∉ curOf init h) ∧
-    (∀ s ∈ m.states, [s.name] ∈ curOf init h → [s.name] ∈ styledTop d 1) ∧
-    (∀ s ∈ m.states, lastSource h = some [s.name] → [s.name] ∉ curOf init h →
+    (∀ p ∈ styledTop d 1, p ∈ marked init h) ∧
+    (∀ p ∈ styledTop d 2, lastSource init h = some p ∧ p ∉ marked init h) ∧
+    (∀ s ∈ m.states, [s.name] ∈ marked init h → [s.name] ∈ styledTop d 1) ∧
+    (∀ s ∈ m.states, lastSource init h = some [s.name] → [s.name] ∉ marked init h →
       [s.name] ∈ styledTop d 2) := by
   simp only [diagram, styledTop, List.mem_map, List.mem_filter, beq_iff_eq]
   refine ⟨?_, ?_, ?_, ?_⟩
@@ -167,17 +169,17 @@ theorem C16_activity (o : Opts) (m : Mach) (init : List Path) (h : List Step) :
     obtain ⟨s, _, h1, h2⟩ := nodesOf_top o _ m.states n hn
     rw [h2, Option.some.injEq, styleOf_after] at hc
     rw [h1]
-    by_cases hm : [s.name] ∈ curOf init h
+    by_cases hm : [s.name] ∈ marked init h
     · exact hm
     · simp only [hm, if_false] at hc; split at hc <;> simp at hc
   · rintro p ⟨n, ⟨hn, hc⟩, rfl⟩
     obtain ⟨s, _, h1, h2⟩ := nodesOf_top o _ m.states n hn
     rw [h2, Option.some.injEq, styleOf_after] at hc
     rw [h1]
-    by_cases hm : [s.name] ∈ curOf init h
+    by_cases hm : [s.name] ∈ marked init h
     · simp [hm] at hc
     · simp only [hm, if_false] at hc
-      by_cases hr : lastSource h = some [s.name]
+      by_cases hr : lastSource init h = some [s.name]
       · exact ⟨hr, hm⟩
       · simp [hr] at hc
   · intro s hs hm
@@ -187,11 +189,26 @@ theorem C16_activity (o : Opts) (m : Mach) (init : List Path) (h : List Step) :
     obtain ⟨n, hn, h1, h2⟩ := nodesOf_top' o (stylesAfter init h) m.states s hs
     exact ⟨n, ⟨hn, by rw [h2, styleOf_after]; simp [hm, hr]⟩, h1⟩
 
+/-- a history is settled when everything marked active since the last reset belongs to the model
+state the graph was last told about (true for straight histories and for events fired from on_enter
+/ after callbacks or through the queue, see the examples below) -/
+def Settled (init : List Path) (h : List Step) : Prop := ∀ p ∈ marked init h, p ∈ curOf init h
+
+/-- **Active = current.** After a settled history, styled-active ⊆ the current model state and every
+top-level current state is styled active. -/
+theorem C16_activity_current (o : Opts) (m : Mach) (init : List Path) (h : List Step) (hs : Settled init h) :
+    let d := diagram o m (stylesAfter init h) none
+    (∀ p ∈ styledTop d 1, p ∈ curOf init h) ∧
+    (∀ s ∈ m.states, [s.name] ∈ curOf init h → [s.name] ∈ styledTop d 1) :=
+  ⟨fun p hp => hs p ((C16_activity o m init h).1 p hp),
+   fun s hm hc => (C16_activity o m init h).2.2.1 s hm (curOf_marked init h _ hc)⟩
+
 /-- **Previous = source of the last executed transition**, at full strength: whatever scope the
-transition is listed in, only the state whose *global* name is the transition's source can be styled
-previous (and nothing is after a regeneration or before the first transition). -/
+transition is listed in and however events nest, only the state whose *global* name is the source of
+the last `begin` can be styled previous (nothing is after a regeneration or before the first
+transition). -/
 theorem C16_activity_previous (o : Opts) (m : Mach) (init : List Path) (h : List Step) :
-    ∀ p ∈ styledTop (diagram o m (stylesAfter init h) none) 2, lastSource h = some p :=
+    ∀ p ∈ styledTop (diagram o m (stylesAfter init h) none) 2, lastSource init h = some p :=
   fun p hp => ((C16_activity o m init h).2.1 p hp).1
 
 /-- the former witness: after the transition `0 → 2` listed in the scope of the compound state `1`
@@ -202,8 +219,22 @@ example :
     let m : Mach := { states := [leaf 0, .mk 1 none false [] [] (.one 0) true [leaf 0, leaf 2]
                         [{ trigger := [0, 0], source := [0], dest := some [2] }]],
                       trans := [], initial := some [1] }
-    let h : List Step := [.change [1] [0] [2] [[1, 2]]]
-    styledTop (diagram o m (stylesAfter [[1, 0]] h) none) 2 = [] ∧ lastSource h = some [1, 0] := by
+    let h : List Step := [.begin [1] [0] [2], .finish [[1, 2]]]
+    styledTop (diagram o m (stylesAfter [[1, 0]] h) none) 2 = [] ∧ lastSource [[1, 0]] h = some [1, 0] := by
+  decide
+
+/-- a re-entrant history (on_enter of 1 fires the event that takes 1 to 2 while 0 → 1 is still in
+progress) is settled; the last executed transition is 1 → 2 -/
+example :
+    let h : List Step := [.begin [] [0] [1], .begin [] [1] [2], .finish [[2]], .finish [[2]]]
+    marked [[0]] h = [[2], [2]] ∧ curOf [[0]] h = [[2]] ∧ lastSource [[0]] h = some [1] := by
+  decide
+
+/-- an event fired from an on_exit callback leaves an unsettled history (the inner transition marks 2,
+then the outer one moves the model to 1): this is why the harness fires events from on_enter / after only -/
+example :
+    let h : List Step := [.begin [] [0] [1], .begin [] [0] [2], .finish [[2]], .finish [[1]]]
+    marked [[0]] h = [[2], [1]] ∧ curOf [[0]] h = [[1]] := by
   decide
 
 /-- **Region of interest (hierarchical).** In the ROI view: every active state and every ancestor of
@@ -261,7 +292,7 @@ to the new description. -/
 theorem C16_regenerated (init : List Path) (h : List Step) (cur : List Path) (p : Path) :
     (stylesAfter init (h ++ [.regen cur])).styleOf p = (if p ∈ cur then 1 else 0) := by
   rw [styleOf_after]
-  simp [curOf, lastSource]
+  simp [marked, lastSource, summary_snoc, sumStep]
 
 /-! ### non-vacuity -/
 
